@@ -90,6 +90,9 @@ type GenesisSpec struct {
 	// ExtraBalances are added to bank genesis (with BaseAccounts created when absent)
 	ExtraBalances []banktypes.Balance
 	AccExtraCoins sdk.Coins // added to the genesis balance of every key account
+	// BankSendOff: position of the bank's send-enabled switch in the genesis file ("" = enabled, "default" =
+	// default_send_enabled false, otherwise the denomination whose transfers are switched off)
+	BankSendOff   string
 	ExtraAccounts []authtypes.GenesisAccount
 	AccFunds      sdk.Int  // per key account, default 10^24
 	OmitModules   []string // genesis sections to leave out (the module's InitGenesis is then not run)
@@ -280,7 +283,13 @@ func BuildGenesis(a *c4eapp.App, enc appparams.EncodingConfig, spec GenesisSpec)
 	for _, b := range balances {
 		total = total.Add(b.Coins...)
 	}
-	gs[banktypes.ModuleName] = cdc.MustMarshalJSON(banktypes.NewGenesisState(banktypes.DefaultGenesisState().Params, balances, total, []banktypes.Metadata{}))
+	bankParams := banktypes.DefaultGenesisState().Params
+	if spec.BankSendOff == "default" {
+		bankParams.DefaultSendEnabled = false
+	} else if spec.BankSendOff != "" {
+		bankParams = bankParams.SetSendEnabledParam(spec.BankSendOff, false)
+	}
+	gs[banktypes.ModuleName] = cdc.MustMarshalJSON(banktypes.NewGenesisState(bankParams, balances, total, []banktypes.Metadata{}))
 
 	gg := govv1.DefaultGenesisState()
 	vp := 10 * time.Second
